@@ -636,17 +636,27 @@ class Engine(Interp):
         ret_state = None
         iters = 0
 
-        def arrive(succ, s2, force_join=False):
+        peel = ctx.partition_fns is not None and ctx.partition_fns(fr.inst)
+
+        def retag(succ, s2, src):
+            """partition tags at a loop head: drop the tags created inside this loop, then (loop
+            peeling) mark whether the head is reached from outside or through a back edge"""
+            inner = body._loop_bodies.get(succ, ())
+            np_ = tuple(t for t in s2.part if not (len(t) == 3 and t[0] in inner))
+            pf = ctx.hooks.get("peel_filter")
+            if peel and (pf is None or pf(fr, succ)):
+                np_ = np_ + ((succ, "lp", "iter" if (src is not None and src in inner) else "first"),)
+            if np_ != s2.part:
+                s2.part = np_
+
+        def arrive(succ, s2, force_join=False, src=None):
             nonlocal ret_state
             if succ == RET:
                 s2.part = s2.part[:part0]
                 ret_state = s2 if ret_state is None else join_states(ctx, ret_state, s2, ("ret", fr.id))
                 return
-            if succ in loop_heads and s2.part:
-                inner = body._loop_bodies.get(succ, ())
-                np_ = tuple(t for t in s2.part if not (len(t) == 3 and t[1] in ("br", "ovf") and t[0] in inner) and not (len(t) == 3 and isinstance(t[1], int) and t[0] in inner))
-                if np_ != s2.part:
-                    s2.part = np_
+            if succ in loop_heads and (s2.part or peel):
+                retag(succ, s2, src)
             sk = (succ, s2.part)
             old = in_states.get(sk)
             if old is None or (npred[succ] <= 1 and succ not in loop_heads and not force_join):
@@ -702,7 +712,7 @@ class Engine(Interp):
                     else:
                         merged[k2] = s2
                 for (succ, _), s2 in merged.items():
-                    arrive(succ, s2)
+                    arrive(succ, s2, src=bi)
         finally:
             ctx.quiet -= 1
         # descending passes from the post-fixpoint: every block once, loop heads take their stored
@@ -729,11 +739,8 @@ class Engine(Interp):
                         s2.part = s2.part[:part0]
                         ret_edges[(pfx, full)] = s2
                         return
-                    if succ in loop_heads and s2.part:
-                        inner = body._loop_bodies.get(succ, ())
-                        np_ = tuple(t for t in s2.part if not (len(t) == 3 and t[1] in ("br", "ovf") and t[0] in inner) and not (len(t) == 3 and isinstance(t[1], int) and t[0] in inner))
-                        if np_ != s2.part:
-                            s2.part = np_
+                    if succ in loop_heads and (s2.part or peel):
+                        retag(succ, s2, pfx if isinstance(pfx, int) else None)
                     sk = (succ, s2.part)
                     per = edges_in.setdefault(sk, {})
                     old = per.get(pfx)
